@@ -188,8 +188,20 @@ func (Engine) Execute(planJSON json.RawMessage, scratch string) (res sim.RunResu
 		}
 	}
 	viol := func(oracleName, sig, msg string) {
+		v := &sim.Violation{Property: p.Prop, Oracle: oracleName, Signature: sig, Message: msg}
+		if sim.Known[v.Key()] {
+			// a known finding: counted, the rest of this history is not judged
+			res.Count("known:"+v.Key(), 1)
+			if res.KnownMsg == nil {
+				res.KnownMsg = map[string]string{}
+			}
+			if _, ok := res.KnownMsg[v.Key()]; !ok {
+				res.KnownMsg[v.Key()] = msg
+			}
+			return
+		}
 		if res.Viol == nil {
-			res.Viol = &sim.Violation{Property: p.Prop, Oracle: oracleName, Signature: sig, Message: msg}
+			res.Viol = v
 		}
 	}
 
@@ -316,8 +328,47 @@ func (Engine) Execute(planJSON json.RawMessage, scratch string) (res sim.RunResu
 			// C05's business; do not judge C08 on a wrong reference
 			res.Count("reference_not_truth", 1)
 		}
+		connKey := func(proto, a, b string) string {
+			if a > b {
+				a, b = b, a
+			}
+			return proto + "|" + a + "|" + b
+		}
+		keyOfConv := make([]string, len(capt.Truth))
+		for i, t := range capt.Truth {
+			keyOfConv[i] = connKey(t.Proto, fmt.Sprintf("%s:%d", t.ClientIP, t.ClientPort), fmt.Sprintf("%s:%d", t.ServerIP, t.ServerPort))
+		}
 		for hi, h := range p.Hist {
 			idOf := map[string]uint64{}
+			// a connection whose packets imported so far had an idle gap longer than
+			// the inactivity timeout was (legitimately) split into two streams at
+			// that point; when a later import fills the gap the streams become one
+			wasSplit := map[string]bool{}
+			noteSplits := func(imported map[int]bool) {
+				times := map[int][]int64{}
+				for fi := range capt.Files {
+					if !imported[fi] {
+						continue
+					}
+					for _, pk := range capt.Files[fi] {
+						times[pk.Conv] = append(times[pk.Conv], pk.TimeUS)
+					}
+				}
+				for c, ts := range times {
+					sort.Slice(ts, func(i, j int) bool { return ts[i] < ts[j] })
+					for i := 1; i < len(ts); i++ {
+						if ts[i]-ts[i-1] > 300_000_000 {
+							wasSplit[keyOfConv[c]] = true
+						}
+					}
+				}
+			}
+			suffix := func(k string) string {
+				if wasSplit[k] {
+					return "/after-gap-filled"
+				}
+				return ""
+			}
 			vis, ok := runHistory(hi, h, func(im *oracle.Importer, imported map[int]bool, last bool) bool {
 				vis, err := oracle.Visible(im.Readers)
 				if err != nil {
@@ -325,27 +376,32 @@ func (Engine) Execute(planJSON json.RawMessage, scratch string) (res sim.RunResu
 					return false
 				}
 				seen := map[string]uint64{}
+				splitNow := map[string]bool{}
+				for k, v := range wasSplit {
+					splitNow[k] = v
+				}
+				noteSplits(imported)
 				for _, s := range vis {
-					a := fmt.Sprintf("%s:%d", s.ClientIP, s.ClientPort)
-					b := fmt.Sprintf("%s:%d", s.ServerIP, s.ServerPort)
-					if a > b {
-						a, b = b, a
-					}
-					k := s.Proto + "|" + a + "|" + b
+					k := connKey(s.Proto, fmt.Sprintf("%s:%d", s.ClientIP, s.ClientPort), fmt.Sprintf("%s:%d", s.ServerIP, s.ServerPort))
 					if o, dup := seen[k]; dup {
-						viol("ids", "two-ids", fmt.Sprintf("history %d: connection %s visible as ids %d and %d", hi, k, o, s.ID))
+						if wasSplit[k] && !splitNow[k] || currentlySplit(capt, imported, keyOfConv, k) {
+							// the data imported so far has an idle gap longer than the
+							// inactivity timeout: two streams are the right answer now
+							continue
+						}
+						viol("ids", "two-ids"+suffix(k), fmt.Sprintf("history %d: connection %s visible as ids %d and %d", hi, k, o, s.ID))
 						return false
 					}
 					seen[k] = s.ID
 					if old, ok := idOf[k]; ok && old != s.ID {
-						viol("ids", "id-changed", fmt.Sprintf("history %d: connection %s had id %d, now %d", hi, k, old, s.ID))
+						viol("ids", "id-changed"+suffix(k), fmt.Sprintf("history %d: connection %s had id %d, now %d", hi, k, old, s.ID))
 						return false
 					}
 					idOf[k] = s.ID
 				}
 				for k, old := range idOf {
 					if _, ok := seen[k]; !ok {
-						viol("ids", "vanished", fmt.Sprintf("history %d: connection %s (id %d) no longer visible", hi, k, old))
+						viol("ids", "vanished"+suffix(k), fmt.Sprintf("history %d: connection %s (id %d) no longer visible", hi, k, old))
 						return false
 					}
 				}
@@ -355,7 +411,15 @@ func (Engine) Execute(planJSON json.RawMessage, scratch string) (res sim.RunResu
 				break
 			}
 			if msg := oracle.SameUpToNumbering(ref, vis); msg != "" {
-				viol("oneshot", "differs", fmt.Sprintf("history %d %v: %s", hi, h.Batches, msg))
+				sfx := ""
+				for k, v := range wasSplit {
+					// the message names the endpoints of the stream without counterpart
+					a, b, _ := strings.Cut(strings.SplitN(k, "|", 2)[1], "|")
+					if v && (strings.Contains(msg, strings.Replace(a, ":", ":", 1)) || strings.Contains(msg, b)) {
+						sfx = "/after-gap-filled"
+					}
+				}
+				viol("oneshot", "differs"+sfx, fmt.Sprintf("history %d %v: %s", hi, h.Batches, msg))
 				break
 			}
 			res.Count("histories", 1)
@@ -654,4 +718,27 @@ func execStackMerge(p *Plan, scratch string, res *sim.RunResult, viol func(oracl
 		}
 	}
 	res.NonTriv = len(stack) > 2
+}
+
+// currentlySplit: do the packets of connection k imported so far have an idle
+// gap longer than the inactivity timeout?
+func currentlySplit(capt *netsim.Capture, imported map[int]bool, keyOfConv []string, k string) bool {
+	var ts []int64
+	for fi := range capt.Files {
+		if !imported[fi] {
+			continue
+		}
+		for _, pk := range capt.Files[fi] {
+			if keyOfConv[pk.Conv] == k {
+				ts = append(ts, pk.TimeUS)
+			}
+		}
+	}
+	sort.Slice(ts, func(i, j int) bool { return ts[i] < ts[j] })
+	for i := 1; i < len(ts); i++ {
+		if ts[i]-ts[i-1] > 300_000_000 {
+			return true
+		}
+	}
+	return false
 }
